@@ -22,6 +22,14 @@
 //        => cur' wordsused iout result [peer',...]
 //      one Receive(m, i_out, sched, 0) on an n-party object with n live input links.
 //      peer = bufhex:flag:ivseen:sqn:calls:chunkin:pipehex; sched = rr | rnd | direct; words = coin words served.
+//   aio2.sendarr cls auth enc chunked open ivsent sqn calls chunkout macacchex [m,...] [est,...] ivhex [maclog] [enclog]
+//        => ret open' ivsent' sqn' calls' chunkout' macacchex' wirehex
+//      one Send(vector) on a link that takes everything; est: one per value sent (the array delimiter included
+//      in the chunked mode of the select class)
+//   aio2.recvarr cls auth enc chunked n sched cur bcur idirect [words] [peer,...] [queue,...] [m,...] [veriflog] [declog]
+//        => cur' bcur' wordsused iout ret [m',...] [peer',...] [queue',...]
+//      one Receive(vector, i_out, sched, 0); queue = buf_mpz of a sender, values separated by ';' ('-' = empty);
+//      bcur = aio_schedule_buffer; m = contents of the caller's vector before / after
 // Whole-scenario facts for the predicate pred_c13b:
 //   prop.aio2.link cls auth enc chunked tamper goodprefix [sent] => [got]
 //   prop.aio2.nbq auth enc chunked cap sleeps [sent] => [got]            (every Send had time: nothing may be lost)
@@ -32,6 +40,11 @@
 //   prop.aio2.twodir cls auth enc chunked => same | differ     (wire bytes of the same value, first message, A->B vs B->A)
 //   prop.aio2.equalmsgs cls auth enc chunked => same | differ  (wire bytes of the same value sent twice on one link)
 //   prop.aio2.array cls auth enc chunked [sizes] [sent] => [got] rets
+//   prop.aio2.arrays cls auth enc chunked sched npeers tamperlink goodarrays sent0 [sent1 sent2] => got0 [got1 got2]
+//        arrays of a peer: a1;a2|b1|e  ('|' between arrays, 'e' = empty array, 'none' = no array); the receiver asks for
+//        the size of the next array it expects (2 parties) resp. for the common size (3 parties)
+//   prop.aio2.arraymix kind cls auth enc chunked detail => outcome     (fixed call sequences, see scenario_arraymix;
+//        sendrefused: detail = send1:r,send2:r <arrays whose Send returned true> => <arrays received>)
 //   prop.aio2.runaway auth enc chunked cap => send-loop-made-no-progress   (a Send needed more than 20000 write calls)
 //   prop.aio2.exercised sleeps partials timeouts forced => ok | NOT-EXERCISED
 #include "common.hh"
@@ -486,6 +499,216 @@ static void scenario_peers(uint64_t c, SplitMix &g)
 		" => " + zlist(got[0].begin(), got[0].end()) + " " + zlist(got[1].begin(), got[1].end()) + " " + zlist(got[2].begin(), got[2].end()));
 }
 
+
+// ------------------------------------------------------------------ integer arrays
+template <class T> static std::string queues_t(T *o, size_t n)
+{
+	std::string r = "[";
+	for (size_t i = 0; i < n; i++) { if (i) r += ","; if (o->buf_mpz[i].empty()) r += "-"; else { bool f = true; for (mpz_ptr v : o->buf_mpz[i]) { if (!f) r += ";"; f = false; r += zs(v); } } }
+	return r + "]";
+}
+static std::string queues_str(aiounicast *o, const Md &md, size_t n) { return md.nb ? queues_t((aiounicast_nonblock*)o, n) : queues_t((aiounicast_select*)o, n); }
+static size_t queue_len(aiounicast *o, const Md &md, size_t i) { return md.nb ? ((aiounicast_nonblock*)o)->buf_mpz[i].size() : ((aiounicast_select*)o)->buf_mpz[i].size(); }
+static size_t sched_buf(aiounicast *o, const Md &md) { return md.nb ? ((aiounicast_nonblock*)o)->aio_schedule_buffer : ((aiounicast_select*)o)->aio_schedule_buffer; }
+
+struct RecvCtx { aiounicast *R; Md md; size_t n; std::vector<int> rfd; std::vector<std::string> in_pipe; std::vector<size_t> calls; };
+static std::string peers_str(RecvCtx &cx)
+{
+	std::string r = "[";
+	for (size_t i = 0; i < cx.n; i++) { RxS b = rx_state(cx.R, i, cx.md); r += std::string(i ? "," : "") + hexs(b.buf) + ":" + (b.flag ? "1:" : "0:") + (b.ivseen ? "1:" : "0:") + b.sqn + ":" + std::to_string(cx.calls[i]) + ":" + b.chunkin + ":" + hexs(cx.in_pipe[i]); }
+	return r + "]";
+}
+static const char *sched_name[] = { "rr", "rnd", "direct" };
+static size_t sched_const(int sched) { return sched == 0 ? aiounicast::aio_scheduler_roundrobin : sched == 1 ? aiounicast::aio_scheduler_random : aiounicast::aio_scheduler_direct; }
+static void sync_pipes(RecvCtx &cx) { for (size_t i = 0; i < cx.n; i++) { size_t left = pending_in(cx.rfd[i]); cx.in_pipe[i] = cx.in_pipe[i].substr(cx.in_pipe[i].size() - left); } }
+
+// one Receive(vector of k values, i_out, sched, 0), recorded
+static bool do_recvarr(RecvCtx &cx, int sched, size_t idir, size_t k, size_t &i_out, std::vector<Z> &vals)
+{
+	const Md &md = cx.md; size_t n = cx.n;
+	std::vector<Z> arr(k); std::vector<mpz_ptr> ptrs; for (auto &x : arr) ptrs.push_back(x);
+	std::string peers0 = peers_str(cx), q0 = queues_str(cx.R, md, n); size_t cur0 = sched_cur(cx.R, md), b0 = sched_buf(cx.R, md);
+	std::vector<size_t> ql0(n); for (size_t i = 0; i < n; i++) ql0[i] = queue_len(cx.R, md, i);
+	std::string m0 = zlist(arr.begin(), arr.end());
+	i_out = (sched == 2) ? idir : 99;
+	cryptolog.clear(); coins.take();
+	bool ret = cx.R->Receive(ptrs, i_out, sched_const(sched), 0);
+	std::vector<uint64_t> words = coin_words(coins.take());
+	size_t ndec = 0; for (auto &cl : cryptolog.ciphers) if (!cl.encrypt && !cl.in.empty()) ndec++;
+	sync_pipes(cx);
+	if (ndec) { bool done = false; for (size_t i = 0; i < n && !done; i++) if (queue_len(cx.R, md, i) > ql0[i]) { cx.calls[i] += ndec; done = true; } if (!done && !ret && i_out < n) cx.calls[i_out] += ndec; }
+	emit("aio2.recvarr " + md.cls() + " " + md.bits() + " " + std::to_string(n) + " " + sched_name[sched] + " " + std::to_string(cur0) + " " + std::to_string(b0) + " " + std::to_string(idir) + " " + ulist(words) + " " + peers0 + " " + q0 + " " + m0 + " " + mac_log(true) + " " + cipher_log(false) +
+		" => " + std::to_string(sched_cur(cx.R, md)) + " " + std::to_string(sched_buf(cx.R, md)) + " " + std::to_string(words.size()) + " " + std::to_string(i_out) + " " + (ret ? "1 " : "0 ") + zlist(arr.begin(), arr.end()) + " " + peers_str(cx) + " " + queues_str(cx.R, md, n));
+	vals = arr;
+	return ret;
+}
+// one single-value Receive on an object with queues (for the mixing scenarios; recorded as aio2.recvn)
+static bool do_recv1(RecvCtx &cx, int sched, size_t idir, size_t &i_out, Z &v)
+{
+	const Md &md = cx.md; size_t n = cx.n;
+	std::string peers0 = peers_str(cx); size_t cur0 = sched_cur(cx.R, md);
+	i_out = (sched == 2) ? idir : 99; cryptolog.clear(); coins.take();
+	bool ret = cx.R->Receive(v, i_out, sched_const(sched), 0);
+	std::vector<uint64_t> words = coin_words(coins.take());
+	size_t ndec = 0, ndec_any = 0; for (auto &cl : cryptolog.ciphers) if (!cl.encrypt) { ndec_any++; if (!cl.in.empty()) ndec++; }
+	std::vector<size_t> bl0(n); (void)bl0;
+	sync_pipes(cx); if (i_out < n) cx.calls[i_out] += ndec;
+	bool refused = ndec_any > 0; for (auto &ml : cryptolog.macs) if (ml.verify == 1) refused = true;
+	std::string res = ret ? "value:" + v.str() : (refused && i_out < n) ? "fail" : "none";
+	emit("aio2.recvn " + md.cls() + " " + md.bits() + " " + std::to_string(n) + " " + sched_name[sched] + " " + std::to_string(cur0) + " " + std::to_string(idir) + " " + ulist(words) + " " + peers0 + " " + mac_log(true) + " " + cipher_log(false) +
+		" => " + std::to_string(sched_cur(cx.R, md)) + " " + std::to_string(words.size()) + " " + std::to_string(i_out) + " " + res + " " + peers_str(cx));
+	return ret;
+}
+static std::string arrays_token(const std::vector<std::vector<Z> > &as)
+{
+	if (as.empty()) return "none";
+	std::string r; for (size_t a = 0; a < as.size(); a++) { if (a) r += "|"; if (as[a].empty()) r += "e"; for (size_t i = 0; i < as[a].size(); i++) { if (i) r += ";"; r += as[a][i].str(); } }
+	return r;
+}
+// one Send(vector) of A to party 1, recorded
+static bool do_sendarr(Chan &ch, const std::vector<Z> &arr, std::string &wire)
+{
+	const Md &md = ch.md; TxS b = tx_state(ch.A.get(), 1, md);
+	std::string open0 = ch.A->fd_out.count(1) ? "1 " : "0 ";
+	std::vector<mpz_srcptr> ptrs; std::vector<uint64_t> ests; for (auto &x : arr) { ptrs.push_back(x); ests.push_back(est_of(x, md.enc)); }
+	if (!md.nb && md.chunked) { Z d("4242424242"); ests.push_back(est_of(d, md.enc)); }
+	size_t all0 = ch.sim.all.size(); cryptolog.clear();
+	bool ret = md.nb ? ch.A->Send(ptrs, 1, (time_t)BIG) : ch.A->Send(ptrs, 1);
+	wire = md.nb ? ch.sim.all.substr(all0) : drain_fd(ch.a2h[0]); ch.sim.q.clear();
+	size_t nenc = 0; for (auto &c : cryptolog.ciphers) if (c.encrypt) nenc++;
+	TxS a = tx_state(ch.A.get(), 1, md);
+	emit("aio2.sendarr " + md.cls() + " " + md.bits() + " " + open0 + (b.ivsent ? "1 " : "0 ") + b.sqn + " " + std::to_string(ch.enc_calls) + " " + b.chunkout + " " + hexs(ch.shadow) + " " + zlist(arr.begin(), arr.end()) + " " + ulist(ests) + " " + b.iv + " " + mac_log(false) + " " + cipher_log(true) +
+		" => " + (ret ? "1 " : "0 ") + (ch.A->fd_out.count(1) ? "1 " : "0 ") + (a.ivsent ? "1 " : "0 ") + a.sqn + " " + std::to_string(ch.enc_calls + nenc) + " " + a.chunkout + " " + hexs(ch.shadow) + " " + hexs(wire));
+	ch.enc_calls += nenc;
+	return ret;
+}
+static void gen_elem(mpz_ptr v, SplitMix &g, bool enc)
+{
+	switch (g.below(5)) { case 0: mpz_set_ui(v, 4242424242UL); break; case 1: mpz_set_ui(v, g.below(100)); break; case 2: gen_bits(v, g, 1 + g.below(200)); break;
+	case 3: gen_bits(v, g, 1 + g.below(40)); if (!enc) mpz_neg(v, v); break; default: mpz_set_ui(v, 1 + g.below(5)); break; }
+}
+static RecvCtx ctx_of(Chan &ch) { RecvCtx cx; cx.R = ch.B.get(); cx.md = ch.md; cx.n = 2; cx.rfd = { ch.h2b[0], ch.dummy[3][0] }; cx.in_pipe = { "", "" }; cx.calls = { 0, 0 }; return cx; }
+
+// arrays on a two-party channel: every Send(vector) and every Receive(vector) recorded
+static void scenario_arrays(uint64_t c, SplitMix &g)
+{
+	Md md; md.nb = c & 1; md.auth = c & 2; md.enc = c & 4; md.chunked = c & 8;
+	Chan ch(md); RecvCtx cx = ctx_of(ch);
+	size_t K = 1 + g.below(4); std::vector<std::vector<Z> > sent, got; std::string wire; std::vector<size_t> ends;
+	for (size_t a = 0; a < K; a++) {
+		size_t sz = g.below(5); std::vector<Z> arr(sz); for (auto &x : arr) gen_elem(x, g, md.enc);
+		std::string w; if (do_sendarr(ch, arr, w)) { sent.push_back(arr); wire += w; ends.push_back(wire.size()); }
+	}
+	int tl = -1; size_t good = 0;
+	if (c % 4 == 3 && !wire.empty()) { tl = 0; size_t p = g.below(wire.size()); if (g.coin()) wire[p] ^= (1 << g.below(8)); else wire.erase(p, 1 + g.below(40)); for (size_t e : ends) if (e <= p) good++; }
+	size_t pushed = 0, quiet = 0, guard = 0; bool limit = true;
+	coins.log = true; coins.take();
+	while (guard++ < 3000) {
+		bool can_push = pushed < wire.size();
+		if (can_push && (quiet > 0 || g.below(3) != 0)) {
+			size_t k = g.below(8) == 0 ? 0 : (g.coin() ? 1 + g.below(12) : 1 + g.below(300)); k = std::min(k, wire.size() - pushed);
+			if (k && syscall(SYS_write, ch.h2b[1], wire.data() + pushed, k) != (ssize_t)k) break;
+			cx.in_pipe[0] += wire.substr(pushed, k); pushed += k;
+			if (g.coin()) continue;
+		}
+		size_t want = got.size() < sent.size() ? sent[got.size()].size() : 1, i_out; std::vector<Z> vals;
+		if (do_recvarr(cx, 2, 0, want, i_out, vals)) { got.push_back(vals); quiet = 0; if (got.size() >= sent.size() + 2) { limit = false; break; } }
+		else quiet++;
+		if (!can_push && (quiet >= 12 || (got.size() == sent.size() && quiet >= 3))) { limit = false; break; }
+	}
+	coins.log = false; coins.take();
+	if (limit) { emit("prop.aio2.harness-step-limit 3 => skipped"); return; }
+	emit("prop.aio2.arrays " + md.cls() + " " + md.bits() + " direct 1 " + std::to_string(tl) + " " + std::to_string(good) + " " + arrays_token(sent) + " => " + arrays_token(got));
+}
+
+// arrays of a common size from three senders, the three schedulers
+static void scenario_apeers(uint64_t c, SplitMix &g)
+{
+	Md md; md.nb = c & 1; md.auth = c & 2; md.enc = c & 4; md.chunked = (c % 16) >= 8;
+	const size_t n = 3; int sched = (c / 2) % 3; size_t k = 1 + g.below(3);
+	Pipes ps; int pin[3][2], rout[3][2], sin_[3][3][2], sout[3][3][2];
+	for (size_t i = 0; i < n; i++) { ps.mk(pin[i], true); ps.mk(rout[i], true); for (size_t j = 0; j < n; j++) { ps.mk(sin_[i][j], true); ps.mk(sout[i][j], true); } }
+	std::vector<int> rin, ro; for (size_t i = 0; i < n; i++) { rin.push_back(pin[i][0]); ro.push_back(rout[i][1]); }
+	std::vector<std::string> rk = { "k-00", "k-01", "k-02" };
+	std::unique_ptr<aiounicast> R(mk_obj(md, n, 0, rin, ro, rk)), S[3];
+	for (size_t i = 1; i < n; i++) {
+		std::vector<int> si, so; for (size_t j = 0; j < n; j++) { si.push_back(sin_[i][j][0]); so.push_back(sout[i][j][1]); }
+		S[i].reset(mk_obj(md, n, i, si, so, { rk[i], "x-" + std::to_string(i), "y-" + std::to_string(i) }));
+	}
+	std::vector<std::vector<Z> > sent[3], got[3]; std::string wire[3]; std::vector<size_t> ends[3];
+	for (size_t i = 0; i < n; i++) {
+		size_t K = g.below(4); if (i == 1 && K == 0) K = 2;
+		for (size_t a = 0; a < K; a++) {
+			std::vector<Z> arr(k); std::vector<mpz_srcptr> ptrs; for (auto &x : arr) { gen_elem(x, g, md.enc); ptrs.push_back(x); }
+			bool ok = (i == 0) ? R->Send(ptrs, 0) : S[i]->Send(ptrs, 0);
+			std::string w = drain_fd(i == 0 ? rout[0][0] : sout[i][0][0]);
+			if (ok) { sent[i].push_back(arr); wire[i] += w; ends[i].push_back(wire[i].size()); }
+		}
+	}
+	int tl = -1; size_t good = 0;
+	if (c % 5 == 4) { tl = g.below(3); if (wire[tl].empty()) tl = -1; else { size_t p = g.below(wire[tl].size()); wire[tl][p] ^= (1 << g.below(8)); for (size_t e : ends[tl]) if (e <= p) good++; } }
+	RecvCtx cx; cx.R = R.get(); cx.md = md; cx.n = n; cx.rfd = { pin[0][0], pin[1][0], pin[2][0] }; cx.in_pipe = { "", "", "" }; cx.calls = { 0, 0, 0 };
+	size_t pushed[3] = { 0, 0, 0 }, quiet = 0, guard = 0; bool limit = true;
+	coins.log = true; coins.take();
+	while (guard++ < 4000) {
+		bool can_push = false; for (size_t i = 0; i < n; i++) if (pushed[i] < wire[i].size()) can_push = true;
+		if (can_push && (quiet > 0 || g.below(3) != 0)) {
+			size_t i = g.below(n); for (size_t t = 0; t < n && pushed[i] >= wire[i].size(); t++) i = (i + 1) % n;
+			size_t kk = g.below(8) == 0 ? 0 : (g.coin() ? 1 + g.below(12) : 1 + g.below(200)); kk = std::min(kk, wire[i].size() - pushed[i]);
+			if (kk && syscall(SYS_write, pin[i][1], wire[i].data() + pushed[i], kk) != (ssize_t)kk) break;
+			cx.in_pipe[i] += wire[i].substr(pushed[i], kk); pushed[i] += kk;
+			if (g.coin()) continue;
+		}
+		size_t idir = can_push ? g.below(n) : guard % n, i_out; std::vector<Z> vals;
+		if (do_recvarr(cx, sched, idir, k, i_out, vals) && i_out < n) { got[i_out].push_back(vals); quiet = 0; }
+		else quiet++;
+		if (!can_push && quiet >= 40) { limit = false; break; }
+	}
+	coins.log = false; coins.take();
+	if (limit) { emit("prop.aio2.harness-step-limit 4 => skipped"); return; }
+	emit("prop.aio2.arrays " + md.cls() + " " + md.bits() + " " + sched_name[sched] + " 3 " + std::to_string(tl) + " " + std::to_string(good) + " " + arrays_token(sent[0]) + " " + arrays_token(sent[1]) + " " + arrays_token(sent[2]) +
+		" => " + arrays_token(got[0]) + " " + arrays_token(got[1]) + " " + arrays_token(got[2]));
+}
+
+// fixed call sequences on an untampered link that mix the interfaces / refuse inside an array / ask for another size
+static void scenario_arraymix(uint64_t c, SplitMix &g)
+{
+	Md md; md.nb = c & 1; md.auth = c & 2; md.enc = false; md.chunked = c & 4;
+	auto feed = [&](Chan &ch, RecvCtx &cx, const std::string &w) { syscall(SYS_write, ch.h2b[1], w.data(), w.size()); cx.in_pipe[0] += w; };
+	coins.log = true; coins.take();
+	{ // (1) receiver: array call, single-value call, array call
+		Chan ch(md); RecvCtx cx = ctx_of(ch); std::string w, all;
+		for (long v = 1; v <= 3; v++) { Z x(v); SendRes r = do_send(ch, x, (time_t)BIG, 0); ch.sim.q.clear(); all += r.wire; }
+		feed(ch, cx, all);
+		size_t i_out; std::vector<Z> vals; Z one; std::string out;
+		bool r1 = do_recvarr(cx, 2, 0, 2, i_out, vals);            // takes value 1 into the queue, returns false
+		bool r2 = false; for (int t = 0; t < 3 && !r2; t++) r2 = do_recv1(cx, 2, 0, i_out, one); // returns value 2
+		bool r3 = false; for (int t = 0; t < 4 && !r3; t++) r3 = do_recvarr(cx, 2, 0, 2, i_out, vals);
+		out = std::string(r1 ? "array-at-once" : "") + "single:" + (r2 ? one.str() : "-") + " array:" + (r3 ? zlist(vals.begin(), vals.end()) : "-");
+		emit("prop.aio2.arraymix recvmix " + md.cls() + " " + md.bits() + " sent:1,2,3 => " + out);
+	}
+	{ // (2) Send(vector) refused at its second element, then a complete array
+		Chan ch(md); RecvCtx cx = ctx_of(ch); std::string w, all;
+		std::vector<Z> a1(2), a2(2); mpz_set_ui(a1[0], 1); gen_bits(a1[1], g, 13000); mpz_setbit(a1[1], 12999); mpz_set_ui(a2[0], 2); mpz_set_ui(a2[1], 3);
+		std::vector<std::vector<Z> > accepted, gotarrs;
+		bool s1 = do_sendarr(ch, a1, w); all += w; if (s1) accepted.push_back(a1);
+		bool s2 = do_sendarr(ch, a2, w); all += w; if (s2) accepted.push_back(a2);
+		feed(ch, cx, all);
+		size_t i_out; std::vector<Z> vals; for (int t = 0; t < 8; t++) if (do_recvarr(cx, 2, 0, 2, i_out, vals)) gotarrs.push_back(vals);
+		emit("prop.aio2.arraymix sendrefused " + md.cls() + " " + md.bits() + " send1:" + (s1 ? "1" : "0") + ",send2:" + (s2 ? "1" : "0") + " " + arrays_token(accepted) + " => " + arrays_token(gotarrs));
+	}
+	{ // (3) the receiver asks for one value where the sender sent arrays [7,8] and [9]
+		Chan ch(md); RecvCtx cx = ctx_of(ch); std::string w, all;
+		std::vector<Z> a1(2), a2(1); mpz_set_ui(a1[0], 7); mpz_set_ui(a1[1], 8); mpz_set_ui(a2[0], 9);
+		do_sendarr(ch, a1, w); all += w; do_sendarr(ch, a2, w); all += w;
+		feed(ch, cx, all);
+		std::string out; size_t i_out; std::vector<Z> vals;
+		for (int t = 0; t < 14; t++) if (do_recvarr(cx, 2, 0, 1, i_out, vals)) out += zlist(vals.begin(), vals.end());
+		emit("prop.aio2.arraymix othersize " + md.cls() + " " + md.bits() + " sent:[7,8],[9],asked:1 => " + (out.empty() ? "-" : out));
+	}
+	coins.log = false; coins.take();
+}
+
 // facts about the wire and the keys (no model lines)
 static void scenario_misc(uint64_t c, SplitMix &g)
 {
@@ -546,6 +769,10 @@ static int drv_aio2(const Opts &o)
 	lap("nbq");
 	for (uint64_t c = 0; c < (N + 2) / 3; c++) scenario_peers(c, g);
 	lap("peers");
+	for (uint64_t c = 0; c < (N + 1) / 2; c++) scenario_arrays(c, g);
+	for (uint64_t c = 0; c < (N + 2) / 3; c++) scenario_apeers(c, g);
+	for (uint64_t c = 0; c < 8 && c < N; c++) scenario_arraymix(c, g);
+	lap("arrays");
 	for (uint64_t c = 0; c < 16 && c < N; c++) scenario_misc(c, g);
 	lap("misc");
 	emit("prop.aio2.exercised " + std::to_string(ex.sleeps) + " " + std::to_string(ex.partials) + " " + std::to_string(ex.timeouts) + " " + std::to_string(ex.forced) + " => " + ((ex.sleeps && ex.partials && (ex.timeouts || N < 8)) ? "ok" : "NOT-EXERCISED"));
